@@ -473,3 +473,21 @@ impl<T> std::ops::Deref for Lazy<T> {
         self.cell.get_or_init(self.init)
     }
 }
+
+// --------------------------------------------------------------------------
+// Callback point before every file-system step of `fixed_window::rotate` (each
+// archive shift and the final move): the installed function may snapshot the
+// directory (a crash image: what a process death at this point leaves behind)
+// and may make the step fail.  Not installed: no effect.
+// --------------------------------------------------------------------------
+
+/// Returns `true` to make the step fail with a non-NotFound error.
+pub static mut ROTATE_STEP: Option<fn() -> bool> = None;
+
+pub fn rotate_step() -> std::io::Result<()> {
+    let f = unsafe { ROTATE_STEP };
+    match f {
+        Some(f) if f() => Err(std::io::Error::from(std::io::ErrorKind::PermissionDenied)),
+        _ => Ok(()),
+    }
+}
